@@ -100,7 +100,29 @@ func stackHistory(L *lua.LState, r *rand.Rand, nops int, counts map[string]int) 
 	for s := 0; s < nops; s++ {
 		n := len(model)
 		var op string
-		switch k := r.Intn(15); {
+		switch k := r.Intn(16); {
+		case k == 15:
+			// Remove / Replace with a negative index that reaches below the activation's own list: whatever
+			// it does to this list (nothing, on this tree), it must not touch what belongs to the callers -
+			// their sentinels are compared when the history ends. The model is re-read from the list.
+			idx := -(n + 1 + r.Intn(5))
+			func() {
+				defer func() { recover() }()
+				if r.Intn(2) == 0 {
+					op = fmt.Sprintf("Remove(%d) with %d values", idx, n)
+					L.Remove(idx)
+				} else {
+					op = fmt.Sprintf("Replace(%d,v) with %d values", idx, n)
+					L.Replace(idx, fresh())
+				}
+			}()
+			if L.GetTop() > n {
+				return fmt.Sprintf("op %d %s: the list grew to %d values", s, op, L.GetTop())
+			}
+			model = model[:0]
+			for i := 1; i <= L.GetTop(); i++ {
+				model = append(model, L.Get(i))
+			}
 		case k == 14:
 			// popping more than the activation owns: an error, and nothing below the
 			// activation's own list is touched (the caller's sentinels are checked at
